@@ -358,6 +358,11 @@ func (c *jsonCtx) line(l jsonLine) string {
 	if accept && treeOK && unique && c.on("C02") {
 		c.oracleC02(line, hasLF, run.row, tree)
 	}
+	if !accept && !run.panicked && strictObj && wellFormedStrings && treeOK && c.on("C02") {
+		// a valid object that is refused is not read and written back at all
+		c.check("C02/a valid line is read")
+		c.viol("C02", "a valid line is refused: it cannot be read and written back", line, map[string]interface{}{"error": fmt.Sprint(run.err)})
+	}
 	return term
 }
 
